@@ -2,14 +2,15 @@
 # Dev-time helper: like try_seed.sh but on a scratch worktree (/tmp/mut_repo) so that /repo stays untouched and other runs
 # can go on in parallel. usage: tools/try_seed_wt.sh <abs patch.diff> <C01> [C02 ...]; `tools/try_seed_wt.sh --clean` removes the scratch state.
 set -u
-WT=/tmp/mut_repo
-if [ "$1" = "--clean" ]; then git -C /repo worktree remove --force $WT 2>/dev/null; rm -rf /tmp/mut_work /tmp/mut_evidence; exit 0; fi
+S=${SLOT:-}
+WT=/tmp/mut_repo$S
+if [ "$1" = "--clean" ]; then git -C /repo worktree remove --force $WT 2>/dev/null; rm -rf /tmp/mut_work$S /tmp/mut_evidence$S; exit 0; fi
 PATCH="$1"; shift
 [ -d $WT ] || git -C /repo worktree add -q --detach $WT || exit 2
 git -C $WT checkout -q --detach "$(git -C /repo rev-parse HEAD)"; git -C $WT checkout -q -- . ; git -C $WT clean -qfd -- .
 git -C $WT apply "$PATCH" || { echo "patch does not apply"; exit 2; }
 for p in "$@"; do
-  VERIF_REPO=$WT VERIF_WORK=/tmp/mut_work VERIF_EVIDENCE=/tmp/mut_evidence /verif/vcheck "$p" > /tmp/try_seedwt_$p.log 2>&1; rc=$?
-  echo "== $p exit=$rc"; grep -E "^\s+\[|^VIOLATION" /tmp/try_seedwt_$p.log | head -${SEED_LINES:-6} | cut -c1-${SEED_COLS:-420}
+  VERIF_REPO=$WT VERIF_WORK=/tmp/mut_work$S VERIF_EVIDENCE=/tmp/mut_evidence$S /verif/vcheck "$p" > /tmp/try_seedwt${S}_$p.log 2>&1; rc=$?
+  echo "== $p exit=$rc"; grep -E "^\s+\[|^VIOLATION" /tmp/try_seedwt${S}_$p.log | head -${SEED_LINES:-6} | cut -c1-${SEED_COLS:-420}
 done
 git -C $WT checkout -q -- . ; git -C $WT clean -qfd -- .
